@@ -3,6 +3,7 @@ package props
 import (
 	"fmt"
 	"go/ast"
+	"go/token"
 	"regexp"
 	"strings"
 
@@ -22,6 +23,7 @@ func runC16(c *an.Ctx) string {
 	r16Use(c)
 	r16NotFound(c)
 	r16Probe(c)
+	r16Sentinels(c)
 	return explanationC16
 }
 
@@ -408,4 +410,86 @@ func r16Probe(c *an.Ctx) {
 		}
 	}
 	c.Floor(rule, n, 3, "Routes.Match probes")
+}
+
+// r16Sentinels (R16.8, R16.9). (R16.8) Handle installs the not-found handler
+// and flushes the pending middlewares when a "first registration" sentinel field
+// is non-nil, and sets it to nil afterwards; the constructor must therefore give
+// that field a non-nil value, or the not-found handler is never installed and
+// unmatched requests get the router's plain-text 404. (R16.9) the pre-routing
+// probe in ensureContext matches the request's PATH (URL.Path, URL.RawPath or
+// EscapedPath()): anything that carries the query string (RequestURI(), String())
+// pollutes the last path value and the resolved pattern.
+func r16Sentinels(c *an.Ctx) {
+	h := c.MustFunc("R16.8", "http", "mux.Handle")
+	nm := c.MustFunc("R16.8", "http", "NewMuxer")
+	if h != nil && nm != nil {
+		info := h.Pkg.TypesInfo
+		var sentinels []string
+		ast.Inspect(h.Decl.Body, func(nd ast.Node) bool {
+			is, ok := nd.(*ast.IfStmt)
+			if !ok {
+				return true
+			}
+			cmp, ok := an.Unparen(is.Cond).(*ast.BinaryExpr)
+			if !ok || cmp.Op != token.NEQ || !an.IsNilIdent(info, cmp.Y) {
+				return true
+			}
+			se, ok := an.Unparen(cmp.X).(*ast.SelectorExpr)
+			if !ok {
+				return true
+			}
+			// reset to nil inside the block
+			reset := false
+			ast.Inspect(is.Body, func(m ast.Node) bool {
+				if as, ok := m.(*ast.AssignStmt); ok && len(as.Lhs) == 1 && len(as.Rhs) == 1 && an.SameExpr(info, as.Lhs[0], se) && an.IsNilIdent(info, as.Rhs[0]) {
+					reset = true
+				}
+				return true
+			})
+			if reset {
+				sentinels = append(sentinels, se.Sel.Name)
+			}
+			return true
+		})
+		if len(sentinels) == 0 {
+			c.Add(an.Obligation{Rule: "R16.8", Construct: h.Name + "#sentinel", Status: an.LOST, Detail: "no first-registration sentinel found in Handle"})
+		}
+		ninfo := nm.Pkg.TypesInfo
+		for _, s := range sentinels {
+			set := false
+			ast.Inspect(nm.Decl.Body, func(nd ast.Node) bool {
+				kv, ok := nd.(*ast.KeyValueExpr)
+				if !ok {
+					return true
+				}
+				if id, ok := kv.Key.(*ast.Ident); ok && id.Name == s && !an.IsNilIdent(ninfo, kv.Value) {
+					set = true
+				}
+				return true
+			})
+			c.Check(set, "R16.8", nm.Name+"#"+s, nm.Decl.Pos(), "the constructor gives the first-registration sentinel a non-nil value", "Handle runs its first-registration setup (not-found handler, pending middlewares) only while field "+s+" is non-nil, but NewMuxer leaves it nil: the goa not-found handler is never installed")
+		}
+	}
+	if f := c.MustFunc("R16.9", "http", "mux.ensureContext"); f != nil {
+		info := f.Pkg.TypesInfo
+		n := 0
+		ast.Inspect(f.Decl.Body, func(nd ast.Node) bool {
+			call, ok := nd.(*ast.CallExpr)
+			if !ok || len(call.Args) != 3 {
+				return true
+			}
+			se, ok := call.Fun.(*ast.SelectorExpr)
+			if !ok || se.Sel.Name != "Match" {
+				return true
+			}
+			n++
+			arg := an.Src(c.Fset, call.Args[2])
+			good := strings.HasSuffix(arg, ".URL.Path") || strings.HasSuffix(arg, ".URL.RawPath") || strings.HasSuffix(arg, ".URL.EscapedPath()")
+			_ = info
+			c.Check(good, "R16.9", f.Name+"#Match("+arg+")", call.Pos(), "the routing probe matches the request path", "the routing probe matches "+arg+", which is not the bare path of the request (a query string becomes part of the last path value and literal-ending patterns stop matching)")
+			return true
+		})
+		c.Floor("R16.9", n, 1, "routing probes in ensureContext")
+	}
 }
